@@ -5,7 +5,7 @@ From GoShGen Require Import Extracted.
 From GoSh Require Import Base.Bytes Base.Outcome Store.Env Store.EnvSpec.
 From GoSh Require Import Arith.ASyntax Arith.AEval.
 From GoSh Require Import Expand.Expand Expand.Spec Lex.Quote Lex.Heredoc.
-From GoSh Require Import Parse.Skel Parse.Grammar Lex.Layout.
+From GoSh Require Import Parse.Skel Parse.Grammar Lex.Layout Print.Heredocs.
 From GoSh Require Import Pattern.Regex Pattern.PCompile Pattern.Match Pattern.PSpec Pattern.Glob.
 Extraction Language OCaml.
 Extraction "model.ml"
@@ -22,5 +22,5 @@ Extraction "model.ml"
   Quote.scan_word Quote.quote_single Quote.quote_double Quote.quote_backslash
   Spec.split_spec Spec.split_model Spec.posix_table Expand.expand Expand.word_size Expand.join_all Expand.ifs_value
   Expand.expand_top Expand.split_field Expand.fempty Expand.funquote
-  Grammar.parse_tokens Grammar.parse_subst Skel.sk_word Layout.scan_gap Layout.scan_linebreak
+  Grammar.parse_tokens Grammar.parse_subst Skel.sk_word Layout.scan_gap Layout.scan_linebreak Heredocs.hrun Heredocs.reader
   AEval.eval_model AEval.eval_top_i AEval.eval_c AEval.c_defined AEval.eager_safe AEval.numeric_store AEval.runes_of AEval.parse_int0.
